@@ -3,6 +3,7 @@ import Restli.Proofs.RoundTrip3
 import Restli.Proofs.RoundTripJson
 import Restli.Proofs.JsonDoc
 import Restli.Proofs.JsonPretty
+import Restli.Proofs.QueryParams
 /-! # C01 — codec round trip (property theorems)
 
 Part 1: the three ROR2 string flavours, for **every byte string**, against the regenerated
@@ -104,6 +105,81 @@ theorem c01_ror2_roundtrip_header (t : Tables) (ht : TablesOk t) (F : FloatLaws)
       .ok (norm env f ty v) { rest := [], start := false, missing := [] } :=
   ror2_roundtrip_obj env _ false (escLaws_header t ht) F (schemaOK_of_check env hS) ign f ty v kvs hv henc
 
+/-- **values of every type written on their own** — an entity key, the value of a query
+parameter, a header — and read from position 0 by the cursor reader under any reader scope, as the
+whole-input reader or as a per-parameter query reader: `Unmarshal(Marshal(v)) = norm v`, the whole
+input consumed, nothing reported missing. (Query flavour; bare primitives, enums, fixed and arrays
+as well as objects.) -/
+theorem c01_ror2_roundtrip_any_query (t : Tables) (ht : TablesOk t) (F : FloatLaws) (env : Env)
+    (hS : schemaOKb env = true) (ign f : Nat) (perParam : Bool) (scopeW : List Bytes) (scopeR : List Seg)
+    (ty : Ty) (v : Value) (doc : Doc) (hv : ValOK v) (henc : encode (wcfg env) f scopeW ty v = .ok doc) :
+    readTy (ror2RcQ env true ign perParam) (3 * (renderRor2 (escapeWith t.querySafe) doc).length + 8) scopeR ty
+        { rest := renderRor2 (escapeWith t.querySafe) doc, start := true, missing := [] } =
+      .ok (norm env f ty v) { rest := [], start := false, missing := [] } :=
+  ror2_roundtrip_any env _ true (escLaws_query t ht) F (schemaOK_of_check env hS) ign f perParam scopeW scopeR
+    ty v doc _ (by omega) hv henc
+
+/-- the same in the header flavour (`X-RestLi-Id`, `Location`) -/
+theorem c01_ror2_roundtrip_any_header (t : Tables) (ht : TablesOk t) (F : FloatLaws) (env : Env)
+    (hS : schemaOKb env = true) (ign f : Nat) (scopeW : List Bytes) (scopeR : List Seg)
+    (ty : Ty) (v : Value) (doc : Doc) (hv : ValOK v) (henc : encode (wcfg env) f scopeW ty v = .ok doc) :
+    readTy (ror2RcQ env false ign false) (3 * (renderRor2 (replaceWith t.headerEscapes) doc).length + 8) scopeR ty
+        { rest := renderRor2 (replaceWith t.headerEscapes) doc, start := true, missing := [] } =
+      .ok (norm env f ty v) { rest := [], start := false, missing := [] } :=
+  ror2_roundtrip_any env _ false (escLaws_header t ht) F (schemaOK_of_check env hS) ign f false scopeW scopeR
+    ty v doc _ (by omega) hv henc
+
+/-- and in the path flavour, for what the underlying writer emits (a key that is exactly `.` or
+`..` is written `%2E`/`%2E%2E` by the path writer instead — `renderRor2Path` — see C02/C15) -/
+theorem c01_ror2_roundtrip_any_path (t : Tables) (ht : TablesOk t) (F : FloatLaws) (env : Env)
+    (hS : schemaOKb env = true) (ign f : Nat) (scopeW : List Bytes) (scopeR : List Seg)
+    (ty : Ty) (v : Value) (doc : Doc) (hv : ValOK v) (henc : encode (wcfg env) f scopeW ty v = .ok doc) :
+    readTy (ror2RcQ env false ign false) (3 * (renderRor2 (escapeWith t.pathSafe) doc).length + 8) scopeR ty
+        { rest := renderRor2 (escapeWith t.pathSafe) doc, start := true, missing := [] } =
+      .ok (norm env f ty v) { rest := [], start := false, missing := [] } :=
+  ror2_roundtrip_any env _ false (escLaws_path t ht) F (schemaOK_of_check env hS) ign f false scopeW scopeR
+    ty v doc _ (by omega) hv henc
+
+/-- the query escaper never emits `&` when `&` is not in its table (decided below for /repo's) -/
+theorem hexUpper_ne_amp : ∀ n, n < 16 → hexUpper n ≠ 38 := by decide
+
+theorem noAmp_query (t : Tables) (h : t.querySafe.contains 38 = false) : NoAmp (escapeWith t.querySafe) := by
+  intro b c hc
+  simp only [escapeWith, List.mem_flatMap] at hc
+  obtain ⟨x, _, hx⟩ := hc
+  simp only [escOne] at hx
+  split at hx
+  · next hs =>
+    simp only [List.mem_singleton] at hx
+    subst hx
+    intro h38; subst h38
+    rw [h] at hs; cases hs
+  · intro h38; subst h38
+    simp only [pct, List.mem_cons, List.not_mem_nil, or_false] at hx
+    have hlt := x.toNat_lt
+    rcases hx with hx | hx | hx
+    · exact absurd hx (by decide)
+    · exact hexUpper_ne_amp _ (by omega) hx.symm
+    · exact hexUpper_ne_amp _ (by omega) hx.symm
+
+theorem c01_query_table_escapes_amp : tablesV2.querySafe.contains 38 = false ∧ tablesRoot.querySafe.contains 38 = false := by
+  decide
+
+/-- **query parameters round trip** (`BuildQueryParams` → `ParseQueryParams` + generated
+`DecodeQueryParams`): for every schema and every record of parameters — of every type — whose field
+names contain neither `&` nor `=`, the query string the client builds is read back by the server to
+the same record (normalised), every parameter consumed entirely, nothing reported missing. -/
+theorem c01_query_params_roundtrip (t : Tables) (ht : TablesOk t) (hamp : t.querySafe.contains 38 = false)
+    (F : FloatLaws) (env : Env) (hS : schemaOKb env = true) (n : TName) (incs : List TName) (own : List Field)
+    (hfind : env.find n = some (.record incs own))
+    (hnames : ∀ fld ∈ allFields env (includeFuel env) n, ∀ c ∈ fld.name, c ≠ 38 ∧ c ≠ 61)
+    (fuel : Nat) (fs : List (Bytes × Value)) (hv : ValOK (.record fs)) (q : Bytes)
+    (hq : buildQueryParams env (escapeWith t.querySafe) fuel n (.record fs) = .ok q) :
+    unmarshalQuery env n q =
+      .ok (norm env (fuel + 1) (.ref n) (.record fs)) { rest := [], start := false } :=
+  query_roundtrip env _ (escLaws_query t ht) F (schemaOK_of_check env hS) (noAmp_query t hamp) n incs own hfind
+    hnames fuel fs hv q hq
+
 /-- values of every type (bare primitives, arrays, enums, fixed, typerefs too), nested anywhere
 inside a document: the tree reader on the raw-token tree of the writer's output returns the
 normalised value. Together with `bridge` (Proofs/Ror2Bridge.lean: the cursor reader on the
@@ -196,6 +272,14 @@ example (F : FloatLaws) :
       .ok (norm exEnv 6 (.ref "R") exVal) { rest := [], start := false, missing := [] } :=
   c01_ror2_roundtrip_query tablesV2 c01_tables_ok_v2 F exEnv (by decide) 0 6 _ exVal exKvs
     (by simp [exVal, ValOK, ValOKKvs, ValOKList, KeysNodup]) rfl
+
+/-- the same value as a record of query parameters (an enum, a union, a map of arrays, an inherited
+field among them): built, parsed and decoded back -/
+example (F : FloatLaws) : ∃ q, buildQueryParams exEnv (escapeWith tablesV2.querySafe) 6 "R" exVal = .ok q ∧
+    unmarshalQuery exEnv "R" q = .ok (norm exEnv 7 (.ref "R") exVal) { rest := [], start := false } := by
+  refine ⟨_, rfl, ?_⟩
+  exact c01_query_params_roundtrip tablesV2 c01_tables_ok_v2 c01_query_table_escapes_amp.1 F exEnv (by decide)
+    "R" _ _ rfl (by decide) 6 _ (by simp [exVal, ValOK, ValOKKvs, ValOKList, KeysNodup]) _ rfl
 
 /-- the same value through JSON: every hypothesis but the three strconv assumptions is met -/
 example (F : FloatLaws) (C : ConvLaws) (N : NumLaws) :
